@@ -1,0 +1,375 @@
+/*
+ * Verification hooks (compiled only with `--cfg tackler_verif`).
+ *
+ * Read-only, structured access to crate-private data for the external
+ * verification harness. Nothing here is reachable in a normal build.
+ */
+use crate::kernel::accumulator;
+use crate::kernel::balance::Balance;
+use crate::kernel::report_item_selector::{
+    BalanceByAccountSelector, BalanceAllSelector, BalanceNonZeroByAccountSelector,
+    BalanceNonZeroSelector, BalanceSelector, RegisterAllSelector, RegisterByAccountSelector,
+    RegisterSelector,
+};
+use crate::kernel::{RegisterSettings, Settings};
+use crate::model::{RegisterEntry, Transaction, TxnSet};
+use crate::tackler;
+use jiff::Zoned;
+use jiff::tz::TimeZone;
+use rust_decimal::Decimal;
+use std::fmt::Write as FmtWrite;
+use std::io;
+use tackler_api::txn_ts;
+use tackler_api::txn_ts::GroupBy;
+
+/// JSON string literal
+pub fn js(s: &str) -> String {
+    let mut o = String::with_capacity(s.len() + 2);
+    o.push('"');
+    for c in s.chars() {
+        match c {
+            '"' => o.push_str("\\\""),
+            '\\' => o.push_str("\\\\"),
+            '\n' => o.push_str("\\n"),
+            '\r' => o.push_str("\\r"),
+            '\t' => o.push_str("\\t"),
+            c if (c as u32) < 0x20 => {
+                let _ = write!(o, "\\u{:04x}", c as u32);
+            }
+            c => o.push(c),
+        }
+    }
+    o.push('"');
+    o
+}
+
+fn jopt(s: Option<&str>) -> String {
+    match s {
+        Some(s) => js(s),
+        None => "null".to_string(),
+    }
+}
+
+/// Decimal as exact parts: sign bit, unsigned mantissa (string), scale
+pub fn jd(d: &Decimal) -> String {
+    format!(
+        "{{\"n\":{},\"m\":\"{}\",\"s\":{}}}",
+        d.is_sign_negative(),
+        d.mantissa().unsigned_abs(),
+        d.scale()
+    )
+}
+
+fn jdopt(d: Option<&Decimal>) -> String {
+    match d {
+        Some(d) => jd(d),
+        None => "null".to_string(),
+    }
+}
+
+/// Zoned as instant (ns since epoch, string) and offset seconds
+pub fn jts(z: &Zoned) -> String {
+    format!(
+        "{{\"ns\":\"{}\",\"off\":{}}}",
+        z.timestamp().as_nanosecond(),
+        z.offset().seconds()
+    )
+}
+
+pub fn txn_json(txn: &Transaction) -> String {
+    let h = &txn.header;
+    let mut o = String::new();
+    let _ = write!(
+        o,
+        "{{\"ts\":{},\"code\":{},\"desc\":{},\"uuid\":{},",
+        jts(&h.timestamp),
+        jopt(h.code.as_deref()),
+        jopt(h.description.as_deref()),
+        jopt(h.uuid.map(|u| u.to_string()).as_deref()),
+    );
+    match &h.location {
+        Some(g) => {
+            let _ = write!(
+                o,
+                "\"loc\":{{\"lat\":{},\"lon\":{},\"alt\":{}}},",
+                jd(&g.lat),
+                jd(&g.lon),
+                jdopt(g.alt.as_ref())
+            );
+        }
+        None => o.push_str("\"loc\":null,"),
+    }
+    match &h.tags {
+        Some(t) => {
+            let v: Vec<String> = t.iter().map(|s| js(s)).collect();
+            let _ = write!(o, "\"tags\":[{}],", v.join(","));
+        }
+        None => o.push_str("\"tags\":null,"),
+    }
+    match &h.comments {
+        Some(t) => {
+            let v: Vec<String> = t.iter().map(|s| js(s)).collect();
+            let _ = write!(o, "\"comments\":[{}],", v.join(","));
+        }
+        None => o.push_str("\"comments\":null,"),
+    }
+    let ps: Vec<String> = txn
+        .posts
+        .iter()
+        .map(|p| {
+            format!(
+                "{{\"acc\":{},\"comm\":{},\"amount\":{},\"txn_amount\":{},\"total\":{},\"txn_comm\":{},\"comment\":{}}}",
+                js(&p.acctn.atn.account),
+                js(&p.acctn.comm.name),
+                jd(&p.amount),
+                jd(&p.txn_amount),
+                p.is_total_amount,
+                js(&p.txn_commodity.name),
+                jopt(p.comment.as_deref())
+            )
+        })
+        .collect();
+    let _ = write!(o, "\"posts\":[{}]}}", ps.join(","));
+    o
+}
+
+pub fn txn_set_json(ts: &TxnSet<'_>) -> String {
+    let v: Vec<String> = ts.txns.iter().map(|t| txn_json(t)).collect();
+    format!("[{}]", v.join(","))
+}
+
+/// Which balance selector family to use
+pub enum BalSel {
+    /// as the balance report: all, or by account when patterns are given
+    Report,
+    /// as the equity export: non-zero, or non-zero by account
+    Equity,
+}
+
+fn bal_selector(kind: &BalSel, ras: &[String]) -> Result<Box<dyn BalanceSelector>, tackler::Error> {
+    let s: Vec<_> = ras.iter().map(|s| s.as_str()).collect();
+    Ok(match (kind, ras.is_empty()) {
+        (BalSel::Report, true) => Box::<BalanceAllSelector>::default(),
+        (BalSel::Report, false) => Box::new(BalanceByAccountSelector::from(&s)?),
+        (BalSel::Equity, true) => Box::new(BalanceNonZeroSelector {}),
+        (BalSel::Equity, false) => Box::new(BalanceNonZeroByAccountSelector::from(&s)?),
+    })
+}
+
+fn balance_to_json(bal: &Balance) -> String {
+    let rows: Vec<String> = bal
+        .bal
+        .iter()
+        .map(|b| {
+            format!(
+                "{{\"acc\":{},\"comm\":{},\"own\":{},\"tree\":{}}}",
+                js(&b.acctn.atn.account),
+                js(&b.acctn.comm.name),
+                jd(&b.account_sum),
+                jd(&b.sub_acc_tree_sum)
+            )
+        })
+        .collect();
+    let mut deltas: Vec<(String, String)> = bal
+        .deltas
+        .iter()
+        .map(|(c, d)| {
+            (
+                c.as_ref().map_or(String::new(), |c| c.name.clone()),
+                jd(d),
+            )
+        })
+        .collect();
+    deltas.sort();
+    let ds: Vec<String> = deltas
+        .iter()
+        .map(|(c, d)| format!("{{\"comm\":{},\"delta\":{}}}", js(c), d))
+        .collect();
+    format!(
+        "{{\"title\":{},\"rows\":[{}],\"deltas\":[{}]}}",
+        js(&bal.title),
+        rows.join(","),
+        ds.join(",")
+    )
+}
+
+/// Balance as computed for the balance report (price conversion as configured)
+pub fn balance_json(
+    txn_set: &TxnSet<'_>,
+    settings: &Settings,
+    kind: BalSel,
+    ras: &[String],
+    with_prices: bool,
+) -> Result<String, tackler::Error> {
+    let sel = bal_selector(&kind, ras)?;
+    let ctx = if with_prices {
+        settings.get_price_lookup().make_ctx(
+            &txn_set.txns,
+            settings.get_report_commodity(),
+            &settings.price.price_db,
+        )
+    } else {
+        Default::default()
+    };
+    let bal = Balance::from("", txn_set, &ctx, sel.as_ref(), settings)?;
+    Ok(balance_to_json(&bal))
+}
+
+fn group_key(gb: GroupBy, ts: &Zoned, tz: TimeZone) -> String {
+    match gb {
+        GroupBy::IsoWeekDate => txn_ts::as_tz_iso_week_date(ts, tz),
+        GroupBy::IsoWeek => txn_ts::as_tz_iso_week(ts, tz),
+        GroupBy::Date => txn_ts::as_tz_date(ts, tz),
+        GroupBy::Month => txn_ts::as_tz_month(ts, tz),
+        GroupBy::Year => txn_ts::as_tz_year(ts, tz),
+    }
+}
+
+/// Balance groups as computed for the balance-group report
+pub fn balance_groups_json(
+    txn_set: &TxnSet<'_>,
+    settings: &Settings,
+    ras: &[String],
+) -> Result<String, tackler::Error> {
+    let sel = bal_selector(&BalSel::Report, ras)?;
+    let ctx = settings.get_price_lookup().make_ctx(
+        &txn_set.txns,
+        settings.get_report_commodity(),
+        &settings.price.price_db,
+    );
+    let gb = settings.report.balance_group.group_by;
+    let tz = settings.report.report_tz.clone();
+    let op: accumulator::TxnGroupByOp<'_> =
+        Box::new(move |txn: &Transaction| group_key(gb, &txn.header.timestamp, tz.clone()));
+    let groups = accumulator::balance_groups(&txn_set.txns, op, &ctx, sel.as_ref(), settings);
+    let v: Vec<String> = groups.iter().map(balance_to_json).collect();
+    Ok(format!("[{}]", v.join(",")))
+}
+
+/// io::Write sink which collects the structured register rows
+pub struct RegCollector {
+    pub out: String,
+    pub first: bool,
+}
+impl io::Write for RegCollector {
+    fn write(&mut self, buf: &[u8]) -> io::Result<usize> {
+        Ok(buf.len())
+    }
+    fn flush(&mut self) -> io::Result<()> {
+        Ok(())
+    }
+}
+
+fn reg_collect(
+    w: &mut RegCollector,
+    re: &RegisterEntry<'_>,
+    _rs: &RegisterSettings,
+) -> Result<(), tackler::Error> {
+    let rows: Vec<String> = re
+        .posts
+        .iter()
+        .map(|p| {
+            format!(
+                "{{\"acc\":{},\"comm\":{},\"amount\":{},\"total\":{},\"target\":{},\"rate\":{}}}",
+                js(&p.post.acctn.atn.account),
+                js(&p.post.acctn.comm.name),
+                jd(&p.post.amount),
+                jd(&p.amount),
+                js(&p.target_commodity.name),
+                jdopt(p.rate.as_ref())
+            )
+        })
+        .collect();
+    if !w.first {
+        w.out.push(',');
+    }
+    w.first = false;
+    let _ = write!(
+        w.out,
+        "{{\"txn\":{},\"rows\":[{}]}}",
+        txn_json(re.txn),
+        rows.join(",")
+    );
+    Ok(())
+}
+
+/// Register entries (including empty ones, which the text writer drops)
+pub fn register_json(
+    txn_set: &TxnSet<'_>,
+    settings: &Settings,
+    ras: &[String],
+) -> Result<String, tackler::Error> {
+    let s: Vec<_> = ras.iter().map(|s| s.as_str()).collect();
+    let sel: Box<dyn RegisterSelector<'_>> = if ras.is_empty() {
+        Box::<RegisterAllSelector>::default()
+    } else {
+        Box::new(RegisterByAccountSelector::from(&s)?)
+    };
+    let ctx = settings.get_price_lookup().make_ctx(
+        &txn_set.txns,
+        settings.get_report_commodity(),
+        &settings.price.price_db,
+    );
+    let rs = RegisterSettings::try_from(settings)?;
+    let mut w = RegCollector {
+        out: String::new(),
+        first: true,
+    };
+    accumulator::register_engine(&txn_set.txns, &ctx, sel.as_ref(), &mut w, reg_collect, &rs)?;
+    Ok(format!("[{}]", w.out))
+}
+
+/// Price lookup metadata records and the cache contents
+pub fn price_ctx_json(txn_set: &TxnSet<'_>, settings: &Settings) -> String {
+    let ctx = settings.get_price_lookup().make_ctx(
+        &txn_set.txns,
+        settings.get_report_commodity(),
+        &settings.price.price_db,
+    );
+    let recs: Vec<String> = ctx
+        .metadata()
+        .rates
+        .iter()
+        .map(|r| {
+            format!(
+                "{{\"ts\":{},\"source\":{},\"rate\":{},\"target\":{}}}",
+                r.ts.as_ref().map_or("null".to_string(), jts),
+                js(&r.source),
+                jopt(r.rate.as_deref()),
+                js(&r.target)
+            )
+        })
+        .collect();
+    format!("[{}]", recs.join(","))
+}
+
+/// The loaded price db, in its stored order
+pub fn price_db_json(settings: &Settings) -> String {
+    let v: Vec<String> = settings
+        .price
+        .price_db
+        .iter()
+        .map(|e| {
+            format!(
+                "{{\"ts\":{},\"base\":{},\"rate\":{},\"eq\":{}}}",
+                jts(&e.timestamp),
+                js(&e.base_commodity.name),
+                jd(&e.eq_amount),
+                js(&e.eq_commodity.name)
+            )
+        })
+        .collect();
+    format!("[{}]", v.join(","))
+}
+
+/// Scale::get_precision
+pub fn precision(settings: &Settings, d: &Decimal) -> usize {
+    settings.report.scale.get_precision(d)
+}
+
+/// Metadata text of a transaction set, as the reports print it
+pub fn metadata_text(txn_set: &TxnSet<'_>, settings: &Settings) -> Option<String> {
+    txn_set
+        .metadata()
+        .map(|md| md.text(settings.report.report_tz.clone()))
+}
